@@ -7,13 +7,13 @@ import Strengths.Proofs.SamplerClock
 import Strengths.Model.Lifecycle
 
 namespace Strengths
-namespace Sim
+namespace SimSt
 variable {σ ω : Type} (A : Algo σ ω) (cfg : SamplerCfg)
 
 /-! ### `iterate_n` and `run` are repeated `Iterate()` -/
 
 /-- `iterate_n(n)`, n ≥ 1, reports `unfinished = false` only for a completed simulation -/
-theorem iterateN_false_complete (n : Nat) (s : Sim σ ω) (h : (iterateN A cfg n s).2 = false) :
+theorem iterateN_false_complete (n : Nat) (s : SimSt σ ω) (h : (iterateN A cfg n s).2 = false) :
     (iterateN A cfg n s).1.complete = true := by
   induction n generalizing s with
   | zero => simp [iterateN] at h
@@ -27,7 +27,7 @@ theorem iterateN_false_complete (n : Nat) (s : Sim σ ω) (h : (iterateN A cfg n
       rw [hr] at this
       simpa using this.symm
 
-theorem run_false_complete (k : Nat) (s : Sim σ ω) (h : (run A cfg k s).2 = false) :
+theorem run_false_complete (k : Nat) (s : SimSt σ ω) (h : (run A cfg k s).2 = false) :
     (run A cfg k s).1.complete = true := by
   induction k generalizing s with
   | zero =>
@@ -47,7 +47,7 @@ theorem run_false_complete (k : Nat) (s : Sim σ ω) (h : (run A cfg k s).2 = fa
 
 /-- the state after `iterate_n(n)` is the state after some number `m ≤ n` of `Iterate()` calls, and after
 exactly `n` of them up to the per-iteration flag -/
-theorem iterateN_state (n : Nat) (s : Sim σ ω) : Same (iterateN A cfg n s).1 (iter A cfg n s) := by
+theorem iterateN_state (n : Nat) (s : SimSt σ ω) : Same (iterateN A cfg n s).1 (iter A cfg n s) := by
   induction n generalizing s with
   | zero => exact Same.refl _
   | succ n ih =>
@@ -64,7 +64,7 @@ theorem iterateN_state (n : Nat) (s : Sim σ ω) : Same (iterateN A cfg n s).1 (
       exact ⟨h3.symm, h2.symm, h5.symm, h6.symm, by rw [h1]; exact hc, h4.symm⟩
 
 /-- `run` with the clock expiring after `k` further iterations is `iterate_n(k+1)` -/
-theorem run_eq_iterateN (k : Nat) (s : Sim σ ω) :
+theorem run_eq_iterateN (k : Nat) (s : SimSt σ ω) :
     Same (run A cfg k s).1 (iterateN A cfg (k + 1) s).1 ∧ (run A cfg k s).2 = (iterateN A cfg (k + 1) s).2 := by
   induction k generalizing s with
   | zero =>
@@ -79,7 +79,7 @@ theorem run_eq_iterateN (k : Nat) (s : Sim σ ω) :
     · rw [if_neg hr, if_neg hr]; exact ⟨Same.refl _, rfl⟩
 
 /-- completion is absorbing for every drive call: nothing but the per-iteration flag changes, `false` is returned -/
-theorem drive_of_complete (s : Sim σ ω) (h : s.complete = true) :
+theorem drive_of_complete (s : SimSt σ ω) (h : s.complete = true) :
     (iterate A cfg s = ({ s with done := false }, false)) ∧
     (∀ n, iterateN A cfg (n + 1) s = ({ s with done := false }, false)) ∧
     (∀ k, run A cfg k s = ({ s with done := false }, false)) := by
@@ -88,7 +88,7 @@ theorem drive_of_complete (s : Sim σ ω) (h : s.complete = true) :
   · intro n; unfold iterateN; rw [hi]; simp
   · intro k; cases k <;> (unfold run; rw [hi]) <;> simp
 
-end Sim
+end SimSt
 
 namespace World
 variable {σ ω : Type}
@@ -116,13 +116,13 @@ theorem boot_wf : WF (World.boot : World σ ω) := by
   intro h; simp [World.boot, Native.boot] at h
 
 theorem nativeInit_cur (n : Native σ ω) (sc : Setup σ ω) :
-    cur (nativeInit n sc) = .live { cfg := sc.cfg, algo := sc.algo, sim := Sim.init sc.algo sc.cfg sc.x0, size := sc.stateSize } ∧
+    cur (nativeInit n sc) = .live { cfg := sc.cfg, algo := sc.algo, sim := SimSt.init sc.algo sc.cfg sc.x0, size := sc.stateSize } ∧
     (nativeInit n sc).freed = false ∧ (nativeInit n sc).spaceType = sc.spaceType := by
   unfold nativeInit
   refine ⟨?_, rfl, ?_⟩
   · show cur { (setCur _ _) with freed := false } = _
     have := cur_setCur ({ n with spaceType := sc.spaceType } : Native σ ω)
-      (.live { cfg := sc.cfg, algo := sc.algo, sim := Sim.init sc.algo sc.cfg sc.x0, size := sc.stateSize })
+      (.live { cfg := sc.cfg, algo := sc.algo, sim := SimSt.init sc.algo sc.cfg sc.x0, size := sc.stateSize })
     unfold cur at this ⊢
     simpa using this
   · show (setCur _ _).spaceType = _
@@ -137,10 +137,10 @@ theorem setObj_crashed (w : World σ ω) (o : Obj) (x : Wrapper σ ω) : (w.setO
 theorem obj_setObj (w : World σ ω) (o : Obj) (x : Wrapper σ ω) : (w.setObj o x).obj o = x := by
   cases o <;> rfl
 
-theorem putSim_cur (w : World σ ω) (m : NSim σ ω) (s : Sim σ ω) : cur (w.putSim m s).native = .live { m with sim := s } := by
+theorem putSim_cur (w : World σ ω) (m : NSim σ ω) (s : SimSt σ ω) : cur (w.putSim m s).native = .live { m with sim := s } := by
   unfold putSim; exact cur_setCur _ _
 
-theorem putSim_freed (w : World σ ω) (m : NSim σ ω) (s : Sim σ ω) : (w.putSim m s).native.freed = w.native.freed := by
+theorem putSim_freed (w : World σ ω) (m : NSim σ ω) (s : SimSt σ ω) : (w.putSim m s).native.freed = w.native.freed := by
   unfold putSim; exact setCur_freed _ _
 
 /-- `finalize` on a well-formed world never faults, leaves the world freed and well-formed; on a freed
@@ -184,7 +184,7 @@ theorem relA_setObj (w1 w2 : World σ ω) (x : Wrapper σ ω) (h : RelA w1 w2) :
   obtain ⟨h1, _, h3, h4, h5⟩ := h
   exact ⟨h1, rfl, h3, h4, h5⟩
 
-theorem relA_putSim (w1 w2 : World σ ω) (m : NSim σ ω) (s : Sim σ ω) (h : RelA w1 w2) : RelA (w1.putSim m s) (w2.putSim m s) := by
+theorem relA_putSim (w1 w2 : World σ ω) (m : NSim σ ω) (s : SimSt σ ω) (h : RelA w1 w2) : RelA (w1.putSim m s) (w2.putSim m s) := by
   obtain ⟨h1, h2, h3, _, h5⟩ := h
   refine ⟨h1, h2, ?_, ?_, ?_⟩
   · unfold putSim; simp only [setCur_spaceType]; exact h3
@@ -195,7 +195,7 @@ theorem relA_crash (w1 w2 : World σ ω) (h : RelA w1 w2) : RelA w1.crash.1 w2.c
   obtain ⟨_, h2, h3, h4, h5⟩ := h
   exact ⟨rfl, h2, h3, h4, h5⟩
 
-theorem relA_drive (w1 w2 : World σ ω) (m : NSim σ ω) (r : Sim σ ω × Bool) (h : RelA w1 w2) :
+theorem relA_drive (w1 w2 : World σ ω) (m : NSim σ ω) (r : SimSt σ ω × Bool) (h : RelA w1 w2) :
     (w1.drive .A m r).2 = (w2.drive .A m r).2 ∧ RelA (w1.drive .A m r).1 (w2.drive .A m r).1 := by
   unfold drive
   refine ⟨rfl, ?_⟩
@@ -221,7 +221,7 @@ theorem call_setup_ok (w : World σ ω) (o : Obj) (sc : Setup σ ω) (hc : w.cra
   unfold call; simp [hc, hr]
 
 theorem call_iterate (w : World σ ω) (o : Obj) (hc : w.crashed = false) :
-    w.call o .iterate = w.onSim (w.driveDead o) fun m => w.drive o m (Sim.iterate m.algo m.cfg m.sim) := by
+    w.call o .iterate = w.onSim (w.driveDead o) fun m => w.drive o m (SimSt.iterate m.algo m.cfg m.sim) := by
   unfold call; simp [hc]
 
 theorem call_iterateN_nonpos (w : World σ ω) (o : Obj) (n : Int) (hc : w.crashed = false) (hn : n ≤ 0) :
@@ -229,11 +229,11 @@ theorem call_iterateN_nonpos (w : World σ ω) (o : Obj) (n : Int) (hc : w.crash
   unfold call; simp [hc, hn]
 
 theorem call_iterateN_pos (w : World σ ω) (o : Obj) (n : Int) (hc : w.crashed = false) (hn : ¬ n ≤ 0) :
-    w.call o (.iterateN n) = w.onSim (w.driveDead o) fun m => w.drive o m (Sim.iterateN m.algo m.cfg n.toNat m.sim) := by
+    w.call o (.iterateN n) = w.onSim (w.driveDead o) fun m => w.drive o m (SimSt.iterateN m.algo m.cfg n.toNat m.sim) := by
   unfold call; simp [hc, hn]
 
 theorem call_run (w : World σ ω) (o : Obj) (k : Nat) (hc : w.crashed = false) :
-    w.call o (.run k) = w.onSim (w.driveDead o) fun m => w.drive o m (Sim.run m.algo m.cfg k m.sim) := by
+    w.call o (.run k) = w.onSim (w.driveDead o) fun m => w.drive o m (SimSt.run m.algo m.cfg k m.sim) := by
   unfold call; simp [hc]
 
 theorem call_sample (w : World σ ω) (o : Obj) (hc : w.crashed = false) :
@@ -241,7 +241,7 @@ theorem call_sample (w : World σ ω) (o : Obj) (hc : w.crashed = false) :
   unfold call; simp [hc]
 
 theorem call_getProgress (w : World σ ω) (o : Obj) (hc : w.crashed = false) :
-    w.call o .getProgress = w.onSim (w, .num 0) fun m => (w, .num (Sim.progress m.cfg m.sim)) := by
+    w.call o .getProgress = w.onSim (w, .num 0) fun m => (w, .num (SimSt.progress m.cfg m.sim)) := by
   unfold call; simp [hc]
 
 theorem call_isComplete (w : World σ ω) (o : Obj) (hc : w.crashed = false) :
@@ -440,9 +440,9 @@ def Good (live : Bool) (w : World σ ω) : Prop :=
   (live = false → w.native.freed = true) ∧
   (w.a.unfinished = false → w.native.freed = false → ∀ m, cur w.native = .live m → m.sim.complete = true)
 
-theorem putSim_crashed (w : World σ ω) (m : NSim σ ω) (s : Sim σ ω) : (w.putSim m s).crashed = w.crashed := rfl
+theorem putSim_crashed (w : World σ ω) (m : NSim σ ω) (s : SimSt σ ω) : (w.putSim m s).crashed = w.crashed := rfl
 
-theorem drive_good (w : World σ ω) (m : NSim σ ω) (sc : Setup σ ω) (r : Sim σ ω × Bool)
+theorem drive_good (w : World σ ω) (m : NSim σ ω) (sc : Setup σ ω) (r : SimSt σ ω × Bool)
     (hg : Good true w) (hm : cur w.native = .live m) (hsc : w.a.script = some sc) (hsz : m.size = sc.stateSize)
     (hr : r.2 = false → r.1.complete = true) :
     (w.drive .A m r).2 ≠ .fault ∧ Good true (w.drive .A m r).1 := by
@@ -506,7 +506,7 @@ theorem good_step (live live' : Bool) (w : World σ ω) (c : Call σ ω) (hg : G
       obtain ⟨hf, m, sc, hm, hsc, hsz⟩ := hl rfl
       rw [onSim_live w _ _ m hf hm]
       exact drive_good w m sc _ hgg hm hsc hsz (fun h => by
-        have := Sim.iterate_snd m.algo m.cfg m.sim; rw [h] at this; simpa using this.symm)
+        have := SimSt.iterate_snd m.algo m.cfg m.sim; rw [h] at this; simpa using this.symm)
   | iterateN n =>
     simp only [stepLive, Option.some.injEq] at hs; subst hs
     by_cases hn : n ≤ 0
@@ -520,7 +520,7 @@ theorem good_step (live live' : Bool) (w : World σ ω) (c : Call σ ω) (hg : G
       | true =>
         obtain ⟨hf, m, sc, hm, hsc, hsz⟩ := hl rfl
         rw [onSim_live w _ _ m hf hm]
-        exact drive_good w m sc _ hgg hm hsc hsz (Sim.iterateN_false_complete m.algo m.cfg _ m.sim)
+        exact drive_good w m sc _ hgg hm hsc hsz (SimSt.iterateN_false_complete m.algo m.cfg _ m.sim)
   | run k =>
     simp only [stepLive, Option.some.injEq] at hs; subst hs
     rw [call_run w _ _ hc]
@@ -531,7 +531,7 @@ theorem good_step (live live' : Bool) (w : World σ ω) (c : Call σ ω) (hg : G
     | true =>
       obtain ⟨hf, m, sc, hm, hsc, hsz⟩ := hl rfl
       rw [onSim_live w _ _ m hf hm]
-      exact drive_good w m sc _ hgg hm hsc hsz (Sim.run_false_complete m.algo m.cfg _ m.sim)
+      exact drive_good w m sc _ hgg hm hsc hsz (SimSt.run_false_complete m.algo m.cfg _ m.sim)
   | sample =>
     simp only [stepLive, Option.some.injEq] at hs; subst hs
     rw [call_sample w _ hc]
@@ -547,7 +547,7 @@ theorem good_step (live live' : Bool) (w : World σ ω) (c : Call σ ω) (hg : G
       · intro hu _ m' hm'
         rw [putSim_cur] at hm'
         cases hm'
-        simp only [Sim.sample_complete]
+        simp only [SimSt.sample_complete]
         exact hst hu hf m hm
   | getProgress =>
     simp only [stepLive, Option.some.injEq] at hs; subst hs
